@@ -4,6 +4,8 @@ import Ctrmml.Model.MdsPlatform
 import Ctrmml.Spec.Timeline
 import Ctrmml.Spec.SeqWf
 import Ctrmml.Model.Optimizer
+import Ctrmml.Model.MdsFile
+import Ctrmml.Spec.PlainFragment
 namespace Driver.ConvD
 open Ctrmml Ctrmml.Mds Ctrmml.Player Driver Tables
 
@@ -122,10 +124,23 @@ def field (impl k : String) : Option String :=
 
 def firstDiff (a b : List Seq.Tk) : Nat := ((a.zip b).takeWhile (fun (x, y) => x == y)).length
 
+/-- the chunk of the constructor model the whole-song theorems are stated over (`MdsFile.construct`,
+C09's model), for the cross-check against the real bytes -/
+def viaConstruct (r : Req) : Option (List Nat) :=
+  match MdsFile.construct r.song r.data (r.volume.map toString) with
+  | .ok b => some b.seq
+  | .error _ => none
+
+/-- is this case an instance of the hypotheses of `C02_song_roundtrip_partial` /
+`C03_song_wellformed_partial`: song in the plain fragment, no platform commands defined, the
+constructor model accepts and its chunk (= the real bytes `seq`) is shorter than 64 KiB -/
+def provedInstance (r : Req) (seq : List Nat) : Bool :=
+  Fragment.inFragment r.song && r.data.platform.isEmpty && viaConstruct r == some seq && decide (seq.length < 65536)
+
 /-- C02 oracle: every channel's bytes, interpreted by the MDSDRV sequence rules, give the tick
 string of the expanded song track (loop-back followed once); songs outside the encodable domain
 are skipped; a song the spec accepts must not be rejected. -/
-def judgeC02 (arg impl : String) : String :=
+def judgeC02 (arg impl : String) (same : Bool := true) : String :=
   match parseReq arg with
   | none => "skip"
   | some r =>
@@ -146,6 +161,9 @@ def judgeC02 (arg impl : String) : String :=
       match (field impl "seq=").bind bytesOfHexNat with
       | none => "fail no sequence"
       | some seq =>
+        -- (`same` = the bytes are those of this very song, not of its optimised form)
+        if same && (match viaConstruct r with | some s => s != seq | none => false) then
+          "fail the constructor model MdsFile.construct assembles a different chunk" else
         match Seq.tracksOf seq with
         | none => "fail header unreadable"
         | some (base, ts) =>
@@ -162,7 +180,7 @@ def judgeC02 (arg impl : String) : String :=
             | .ok _, none => some s!"track {id} missing from the track table"
             | _, _ => none
           match res with
-          | [] => "ok"
+          | [] => if provedInstance r seq then "ok proved-fragment" else "ok"
           | x :: _ => "fail " ++ x
 
 /-- C03 oracle on the real bytes: every stream decodes instruction by instruction inside the
@@ -200,7 +218,11 @@ def judgeC03 (arg impl : String) : String :=
               | some 0 => some s!"track {id}: the loop-back jump spans no note or rest time"
               | _ => none
           match res with
-          | [] => "ok"
+          | [] =>
+            let chans := r.song.tracks.filter (·.1 < 16)
+            let inDom := chans.all fun (_, root) => Timeline.inDomain r.song root
+            let defined := chans.all fun (_, root) => match Timeline.expected r.song r.platformSpec root with | .ok _ => true | .error _ => false
+            if inDom && defined && provedInstance r seq then "ok proved-fragment" else "ok"
           | x :: _ => "fail " ++ x
 
 /-- split `<min_score> rest…` -/
@@ -238,10 +260,10 @@ def modelO (arg : String) : String :=
 def judgeO (arg impl : String) : String :=
   let (_, rest) := splitScore arg
   if impl.startsWith "opterr:" ∨ impl.startsWith "optexc:" then "skip"   -- C01's subject
-  else judgeC02 rest impl
+  else judgeC02 rest impl false
 
 def handlers : List Driver.Handler :=
-  [{ cmd := "conv", model := model, judge := judgeC02 },
+  [{ cmd := "conv", model := model, judge := fun a i => judgeC02 a i },
    { cmd := "convo", model := modelO, judge := judgeO },
    { cmd := "convwf", model := model, judge := judgeC03 }]
 end Driver.ConvD
